@@ -28,10 +28,10 @@
                  O = no panic, "succeeds in one configuration ⇒ succeeds in all", and every configuration gives the same
                      answer up to the freedom `Spec.sameAnswer` leaves.  No executable reference (tables are ≥1000 rows; the
                      naive reference semantics is quadratic) — K = O.
-                 Attribution: only to C07-F2 (= C21-F8, NULL group key merged into the group of key -1): signature = the plan
-                 groups by a key and some integer column holds both NULL and -1; neutraliser = the harness re-runs every
-                 configuration with the NULLs of integer columns replaced by a fresh value, and then all of them agree.
-                 C07-F1 (partition-0-only callers) is fixed (b96001d) and suppresses nothing; its shape is only tagged.
+                 Attribution: none.  The three defects this family found are fixed in /repo (C07-F1 partition-0-only callers
+                 b96001d; scalar MIN/MAX sentinel 988d68a; C07-F2 = C21-F8 NULL group key merged into key -1, 16c594a) and
+                 suppress nothing; a failing case that has the shape of one of them is only tagged `looks_like:…` (for F2 the
+                 harness still adds the runs with integer NULLs replaced, which makes the tag precise).
 -/
 import Driver.Util
 import Driver.Sql
@@ -349,9 +349,11 @@ def handleSql (c i : Json) : Except String Driver.Verdict := do
   let f2 := clean && hasGrouping cs.plan && neutralOk
   -- C07-F1 (fixed by b96001d) and the scalar MIN/MAX sentinel (C21-F9, fixed by 988d68a) suppress nothing any more: a case
   -- with their signature is a new VIOLATION.  `f1` / `f3` only label it.
-  let attr : Option String := if f2 then some "C07-F2" else none
+  -- C07-F2 (= C21-F8, fixed by 16c594a) suppresses nothing either.  No finding of C07 is open: nothing is attributed.
+  let attr : Option String := none
   let diffTags := (differing.map fun k => s!"diff:{layoutOf k}").eraseDups
                   ++ (if f1 then ["looks_like:C07-F1"] else []) ++ (if f3 then ["looks_like:C21-F9"] else [])
+                  ++ (if f2 then ["looks_like:C07-F2"] else [])
   let nonEmpty := oks.any fun (_, t) => !t.isEmpty
   let tags := ["sql", if multiScan then "sql:multi" else "sql:single", if declMax ≥ 2 then "sql:root_multi" else "sql:root_single", if sig then "sql:subplan" else "sql:plain",
                Driver.SQL.topShape cs.plan, if errs.isEmpty then "sql:answered" else "sql:err"]
